@@ -56,6 +56,7 @@ type gworld struct {
 	polls       int
 	blockedCB   int
 	multi       bool // several polling goroutines
+	rebInCall   map[string]int // rebalancer thread inside waitAndAddRebalance -> its Cond.Wait count at call time
 	finals      []func()
 }
 
@@ -72,6 +73,18 @@ func gatePoller(c *consumer, kinds []int) func() {
 			c.waitAndAddPoller()
 			g.polls++
 			g.registered++
+			// "Polls wait while a rebalance is pending": a rebalancer that has
+			// PARKED inside its waitAndAddRebalance call (observed through the
+			// runtime, not through the gate word) is pending. A poll that is
+			// admitted as the FIRST poller (no other poll registered in the gate
+			// at admission; admission and this check are one atomic step) while
+			// such a rebalancer has not yet entered is a violation.
+			if c.pollWaitState&0xffffffff == 1 {
+				for name, snap := range g.rebInCall {
+					vrt.Assert(vrt.CondWaitsOf(name) == snap, "poll-admitted-while-rebalance-pending",
+						"a poll was admitted with no other poll outstanding while rebalancer %s is parked waiting for its turn (rebalances must take priority)", name)
+				}
+			}
 			vrt.Assert(g.inRebalance == 0, "poll-during-rebalance", "a poll was admitted while a rebalance is in its critical section")
 			if k == pollNone {
 				vrt.Yield("poll-body")
@@ -103,11 +116,14 @@ func gatePoller(c *consumer, kinds []int) func() {
 func gateRebalancer(c *consumer, n int, silent bool) func() {
 	return func() {
 		for i := 0; i < n; i++ {
+			me := vrt.ThreadName()
+			g.rebInCall[me] = vrt.CondWaitsOf(me)
 			if silent {
 				c.waitAndAddRebalanceSilent()
 			} else {
 				c.waitAndAddRebalance()
 			}
+			delete(g.rebInCall, me)
 			g.inRebalance++
 			g.rebalances++
 			vrt.Assert(g.multi || g.holding == 0, "rebalance-during-outstanding-poll", "rebalance critical section entered with %d polls holding records", g.holding)
@@ -121,7 +137,7 @@ func gateRebalancer(c *consumer, n int, silent bool) func() {
 
 func gateHarness(pollers [][]int, rebalancers []int, silent bool, cb bool) func() {
 	return func() {
-		g = &gworld{}
+		g = &gworld{rebInCall: map[string]int{}}
 		c := newConsumer()
 		if cb {
 			c.cl.cfg.onBlocked = func(context.Context, *Client) { g.blockedCB++ }
